@@ -125,8 +125,10 @@ def _worker(wid, cell, table, mask, workq, resq, pending, stop, hungry, deadline
                     sample = list(ctl.actions)
             if w.viol:
                 v = w.viol[0]
-                viols.append({"prop": v[0], "key": v[1], "detail": repr(v[2:]), "choices": list(ctl.choices), "actions": list(ctl.actions)})
-                stop.value = 1
+                if not any(x["key"] == v[1] for x in viols):
+                    viols.append({"prop": v[0], "key": v[1], "detail": repr(v[2:]), "choices": list(ctl.choices), "actions": list(ctl.actions)})
+                if v[1] not in cell.get("known_keys", ()):
+                    stop.value = 1
             children = []
             for i in range(len(prefix), len(ctl.points)):
                 n, free = ctl.points[i]
@@ -206,7 +208,7 @@ def explore_parallel(cell, nworkers=16, deadline=None):
     out = {
         "name": cell["name"],
         "stats": tot,
-        "violations": viols[:3],
+        "violations": list({x["key"]: x for x in reversed(viols)}.values())[:6],
         "observations": len(obs),
         "complete": stop.value == 0 and not errors,
         "samples": [sample] if sample else [],
